@@ -24,6 +24,9 @@ func (r ConditionalRule) String() string {
 }
 
 func (r ConditionalRule) Negate() Rule {
+	if r.ElseIsDefined() {
+		return NewIfThenElseConditional(!r.Negated, r.IfRule(), r.ThenRule(), r.ElseRule())
+	}
 	return NewConditional(!r.Negated, r.IfRule(), r.ThenRule())
 }
 
